@@ -78,8 +78,8 @@ func ruleParametersReachContext(c *Ctx, rule string) {
 			c.bad(rule, key, ci.Pos(), "the execution context is built from "+what+" instead of the command.Parameters the entry point received: the idempotency key (or the preview flag) of the request is lost before it is looked up and recorded")
 		}
 	}
-	if n < 3 {
-		c.undecided(rule, "floor:execution-contexts", token.NoPos, fmt.Sprintf("expected at least 3 call sites of newExecutionContext (exec, SaveMeta, DeleteMetadata), found %d", n))
+	if n < 2 {
+		c.undecided(rule, "floor:execution-contexts", token.NoPos, fmt.Sprintf("expected at least 2 call sites of newExecutionContext (the transaction executor and the metadata writes), found %d", n))
 	}
 }
 
@@ -478,18 +478,18 @@ func ruleCacheOnlyCompiled(c *Ctx, rule string) {
 	compile := c.Fn(pkgCompiler, "Compile")
 	var sets []*ssa.Call
 	var comp *ssa.Call
-	allCalls(fn, func(ci ssa.CallInstruction) {
-		call, ok := ci.(*ssa.Call)
+	for _, fi := range flattenCalls(fn, pkgCommand, 3) {
+		call, ok := fi.ins.(*ssa.Call)
 		if !ok {
-			return
+			continue
 		}
-		if ci.Common().IsInvoke() && ci.Common().Method.Name() == "Set" && len(ci.Common().Args) == 2 {
+		if call.Call.IsInvoke() && call.Call.Method.Name() == "Set" && len(call.Call.Args) == 2 {
 			sets = append(sets, call)
 		}
-		if compile != nil && callsFn(ci, compile) {
+		if compile != nil && callsFn(call, compile) {
 			comp = call
 		}
-	})
+	}
 	key := "Compiler.Compile:cache-filled-only-after-success"
 	if comp == nil || len(sets) == 0 {
 		c.undecided(rule, key, fn.Pos(), "the call of compiler.Compile or the cache store was not found in command.Compiler.Compile")
@@ -507,6 +507,13 @@ func ruleCacheOnlyCompiled(c *Ctx, rule string) {
 	}
 	bad := token.NoPos
 	c.RunPaths(fn, 0, &PathRule{
+		MaxDepth: 3,
+		Inline: func(call ssa.CallInstruction) []*ssa.Function {
+			if g := staticCallee(call); g != nil && len(g.Blocks) > 0 && fnPkgPath(origin(g)) == pkgCommand {
+				return []*ssa.Function{g}
+			}
+			return nil
+		},
 		Edge: func(pc *PathCtx, s uint64, from *ssa.BasicBlock, si int) (uint64, bool) {
 			for _, f := range pc.edgeFacts(from, si) {
 				if errV != nil && f.X == errV && isNilConst(f.Y) && f.Eq {
@@ -677,7 +684,7 @@ func ruleFoldExaminesAll(c *Ctx, rule string) {
 			folds := false
 			for _, b := range scc {
 				for _, ins := range b.Instrs {
-					if call, ok := ins.(*ssa.Call); ok && callFolds(call, 0) {
+					if call, ok := ins.(*ssa.Call); ok && callFolds(c, call, 0) {
 						folds = true
 					}
 				}
@@ -721,22 +728,35 @@ func ruleFoldExaminesAll(c *Ctx, rule string) {
 }
 
 // callFolds: the call adds to or subtracts from a big.Int, itself or in a helper of the repository it calls.
-func callFolds(call ssa.CallInstruction, depth int) bool {
+func callFolds(c *Ctx, call ssa.CallInstruction, depth int) bool {
 	switch calleeFullName(call) {
 	case "(*math/big.Int).Add", "(*math/big.Int).Sub":
 		return true
 	}
-	g := staticCallee(call)
-	if g == nil || depth >= 2 || len(g.Blocks) == 0 || !inRepo(fnPkgPath(origin(g))) {
+	if depth >= 3 {
 		return false
 	}
-	found := false
-	allCalls(g, func(ci ssa.CallInstruction) {
-		if !found && callFolds(ci, depth+1) {
-			found = true
+	var callees []*ssa.Function
+	if g := staticCallee(call); g != nil {
+		callees = []*ssa.Function{g}
+	} else if !call.Common().IsInvoke() {
+		callees = c.CalleesOf(call) // a function value handed down (`forEachPosting(func(p) { … })`)
+	}
+	for _, g := range callees {
+		if len(g.Blocks) == 0 || !inRepo(fnPkgPath(origin(g))) {
+			continue
 		}
-	})
-	return found
+		found := false
+		allCalls(g, func(ci ssa.CallInstruction) {
+			if !found && callFolds(c, ci, depth+1) {
+				found = true
+			}
+		})
+		if found {
+			return true
+		}
+	}
+	return false
 }
 
 // isRangeTest: the block ends in the test of a range loop (index < length, or the ok of a map / channel / string
